@@ -184,7 +184,7 @@ PROPS = {
         level_note='Only intercepted symbols are seen (glibc-internal stdio locks are not pthread_mutex_* calls through the PLT). Plain (non-sanitizer) build because AddressSanitizer owns the allocator. Setup (port tables, ThreadLink, message generation) happens outside the sections.',
         technique='allocator / lock interposition monitor with realtime-section flag (plain build)',
         stages=[dict(harness='c03', variant='plain', quick=2400, thorough=200000, ldextra=['-rdynamic'],
-                     need=['rt.build_amessage', 'rt.build_vmessage', 'rt.build_message_varargs', 'rt.size_query', 'rt.build_does_not_fit', 'rt.measure_and_read', 'rt.match',
+                     need=['rt.build_amessage', 'rt.build_vmessage', 'rt.build_message_varargs', 'rt.size_query', 'rt.build_does_not_fit', 'rt.measure_and_read', 'rt.reply_forwarding_large', 'rt.match',
                            'rt.bundle_build', 'rt.bundle_read', 'rt.tree_dispatch_loc_hit', 'rt.tree_dispatch_loc_miss', 'rt.tree_dispatch_noloc_hit', 'rt.tree_dispatch_noloc_miss',
                            'rt.tree_dispatch_default_handler', 'rt.sugar_dispatch_loc_hit', 'rt.sugar_dispatch_loc_miss', 'rt.sugar_dispatch_noloc_hit', 'rt.sugar_dispatch_noloc_miss',
                            'rt.threadlink_write', 'rt.threadlink_writeArray', 'rt.threadlink_raw_write', 'rt.threadlink_read', 'rt.threadlink_read_lookahead', 'rt.threadlink_hasNext_true',
